@@ -319,9 +319,9 @@ Section Target.
   Definition cs_ok (cs : list (list N)) : Prop :=
     Forall (fun h => RC h /\ has (code_key h) db0 = false) cs.
 
-  Lemma sound_missing_go : forall q max count s ns cs,
+  Lemma sound_missing_go mfd : forall q max count s ns cs,
     sound s -> (forall x, In x q -> In x (queue s)) -> ns_ok ns -> cs_ok cs ->
-    let '(s', ns', cs') := missing_go q max count s ns cs in
+    let '(s', ns', cs') := missing_go mfd q max count s ns cs in
     sound s' /\ ns_ok ns' /\ cs_ok cs'.
   Proof.
     induction q as [|[p it] rest IH]; intros max count s ns cs Hs Hq Hn Hc; cbn [missing_go].
@@ -330,7 +330,7 @@ Section Target.
     - destruct (negb (max =? 0) && negb (count <? max)).
       { split; [|split; [apply Forall_rev; exact Hn|apply Forall_rev; exact Hc]].
         apply (sound_same s); [repeat split|ssimpl; exact Hq|exact Hs]. }
-      destruct (Z.ltb max_fetches_per_depth (fget (prio_depth p) (fetches s))).
+      destruct (Z.ltb mfd (fget (prio_depth p) (fetches s))).
       { split; [|split; [apply Forall_rev; exact Hn|apply Forall_rev; exact Hc]].
         apply (sound_same s); [repeat split|ssimpl; exact Hq|exact Hs]. }
       set (s1 := set_fetches s _).
@@ -349,7 +349,7 @@ Section Target.
     sound s ->
     let '(s', ns', cs') := missing s k in sound s' /\ ns_ok ns' /\ cs_ok cs'.
   Proof.
-    intros Hs. unfold missing. apply sound_missing_go; auto; constructor.
+    intros Hs. unfold missing, missing_b. apply sound_missing_go; auto; constructor.
   Qed.
 
   (* the destination agrees with the target where they overlap (from: keyed by hash +
